@@ -29,6 +29,7 @@ from .values import (
     to_string,
     js_typeof,
     _is_array_index,
+    MAX_ARRAY_LENGTH,
 )
 from .errors import (
     JSError,
@@ -2533,7 +2534,7 @@ class VM:
                     isinstance(length, float)
                     and (math.isnan(length) or math.isinf(length))
                     or int(length) != length
-                    or not 0 <= length < 2**32
+                    or not 0 <= length <= MAX_ARRAY_LENGTH
                 ):
                     raise JSRangeError("Invalid array length")
                 obj.length = int(length)
